@@ -58,8 +58,31 @@ type cmafIngester struct {
 	repsData       []cmafRepData
 	nextSegTrigger chan struct{}
 	done           chan struct{} // closed when the ingester has stopped
-	state          ingesterState
+	state          atomic.Int32  // ingesterState, set by start() and read by the manager
+	mu             sync.Mutex    // protects report
 	report         []string
+}
+
+func (c *cmafIngester) setState(state ingesterState) {
+	c.state.Store(int32(state))
+}
+
+func (c *cmafIngester) getState() ingesterState {
+	return ingesterState(c.state.Load())
+}
+
+// addReport adds a line to the report of the session.
+func (c *cmafIngester) addReport(msg string) {
+	c.mu.Lock()
+	defer c.mu.Unlock()
+	c.report = append(c.report, msg)
+}
+
+// getReport returns a copy of the report of the session so far.
+func (c *cmafIngester) getReport() []string {
+	c.mu.Lock()
+	defer c.mu.Unlock()
+	return append([]string(nil), c.report...)
 }
 
 func NewCmafIngesterMgr(s *Server) *cmafIngesterMgr {
@@ -79,7 +102,7 @@ func (cm *cmafIngesterMgr) Close() {
 	cm.mu.RLock()
 	cancels := make([]context.CancelFunc, 0, len(cm.cancels))
 	for i, cancel := range cm.cancels {
-		if cm.ingesters[i].state == ingesterStateRunning {
+		if cm.ingesters[i].getState() == ingesterStateRunning {
 			cancels = append(cancels, cancel)
 		}
 	}
@@ -203,7 +226,7 @@ func (cm *cmafIngesterMgr) NewCmafIngester(req CmafIngesterSetup) (nr uint64, er
 		}
 	}
 
-	c := cmafIngester{
+	c := &cmafIngester{
 		mgr:            cm,
 		user:           req.User,
 		passWord:       req.PassWord,
@@ -218,11 +241,10 @@ func (cm *cmafIngesterMgr) NewCmafIngester(req CmafIngesterSetup) (nr uint64, er
 		cfg:            cfg,
 		asset:          asset,
 		repsData:       repsData,
-		state:          ingesterStateNotStarted,
 		nextSegTrigger: make(chan struct{}),
 		done:           make(chan struct{}),
 	}
-	cm.addIngester(nr, &c)
+	cm.addIngester(nr, c)
 
 	return nr, nil
 }
@@ -262,7 +284,7 @@ type cmafRepData struct {
 func (c *cmafIngester) start(ctx context.Context) {
 
 	defer func() {
-		c.state = ingesterStateStopped
+		c.setState(ingesterStateStopped)
 		close(c.done)
 	}()
 
@@ -278,7 +300,7 @@ func (c *cmafIngester) start(ctx context.Context) {
 		if ok {
 			if err != nil {
 				msg := fmt.Sprintf("error matching time subs init lang: %v", err)
-				c.report = append(c.report, msg)
+				c.addReport(msg)
 				c.log.Error(msg)
 				return
 			}
@@ -288,7 +310,7 @@ func (c *cmafIngester) start(ctx context.Context) {
 			err := init.EncodeSW(sw)
 			if err != nil {
 				msg := fmt.Sprintf("Error encoding init segment: %v", err)
-				c.report = append(c.report, msg)
+				c.addReport(msg)
 				c.log.Error(msg)
 				return
 			}
@@ -297,19 +319,19 @@ func (c *cmafIngester) start(ctx context.Context) {
 			match, err := matchInit(rd.initPath, c.cfg, c.mgr.s.Cfg.DrmCfg, c.asset)
 			if err != nil {
 				msg := fmt.Sprintf("Error matching init segment: %v", err)
-				c.report = append(c.report, msg)
+				c.addReport(msg)
 				c.log.Error(msg)
 			}
 			if !match.isInit {
 				msg := fmt.Sprintf("Error matching init segment: %v", err)
-				c.report = append(c.report, msg)
+				c.addReport(msg)
 				c.log.Error(msg)
 			}
 			contentType = match.rep.SegmentType()
 			initBin, err = setRawInitProps(match.init, rd, startTimeS)
 			if err != nil {
 				msg := fmt.Sprintf("Error setting init times: %v", err)
-				c.report = append(c.report, msg)
+				c.addReport(msg)
 				c.log.Error(msg)
 			}
 		}
@@ -317,17 +339,17 @@ func (c *cmafIngester) start(ctx context.Context) {
 		err = c.sendInitSegment(ctx, rd, initBin)
 		if err != nil {
 			msg := fmt.Sprintf("error uploading init segment: %v", err)
-			c.report = append(c.report, msg)
+			c.addReport(msg)
 			c.log.Error(msg)
 			nrInitErrors++
 		} else {
 			c.log.Info("Sent init segment", "path", rd.initPath, "contentType", contentType, "size", len(initBin))
-			c.report = append(c.report, fmt.Sprintf("Sent init segment %s", rd.initPath))
+			c.addReport(fmt.Sprintf("Sent init segment %s", rd.initPath))
 		}
 	}
 	if nrInitErrors > 0 {
 		msg := fmt.Sprintf("Number of init errors: %d", nrInitErrors)
-		c.report = append(c.report, msg)
+		c.addReport(msg)
 		c.log.Error("could not upload init segments", "nrErrors", nrInitErrors)
 		return
 	}
@@ -339,7 +361,7 @@ func (c *cmafIngester) start(ctx context.Context) {
 	} else {
 		nowMS = int(time.Now().UnixNano() / 1e6)
 	}
-	c.state = ingesterStateRunning
+	c.setState(ingesterStateRunning)
 
 	refRep := c.asset.refRep
 	lastNr := findLastSegNr(c.cfg, c.asset, nowMS, refRep) // Counted from the start of the stream
@@ -361,7 +383,7 @@ func (c *cmafIngester) start(ctx context.Context) {
 	availabilityTime, err := calcSegmentAvailabilityTime(c.asset, refRep, uint32(nextSegNr), c.cfg)
 	if err != nil {
 		msg := fmt.Sprintf("Error calculating segment availability time: %v", err)
-		c.report = append(c.report, msg)
+		c.addReport(msg)
 		c.log.Error(msg)
 		return
 	}
@@ -394,7 +416,7 @@ func (c *cmafIngester) start(ctx context.Context) {
 		err := c.sendMediaSegments(ctx, nextSegNr, int(availabilityTime), isLast)
 		if err != nil {
 			msg := fmt.Sprintf("Error sending media segments: %v", err)
-			c.report = append(c.report, msg)
+			c.addReport(msg)
 			c.log.Error(msg)
 			return
 		}
@@ -402,7 +424,7 @@ func (c *cmafIngester) start(ctx context.Context) {
 		availabilityTime, err = calcSegmentAvailabilityTime(c.asset, refRep, uint32(nextSegNr), c.cfg)
 		if err != nil {
 			msg := fmt.Sprintf("Error calculating segment availability time: %v", err)
-			c.report = append(c.report, msg)
+			c.addReport(msg)
 			c.log.Error(msg)
 			return
 		}
@@ -415,7 +437,7 @@ func (c *cmafIngester) start(ctx context.Context) {
 			deltaTime := time.Duration(availabilityTime-int64(nowMS)) * time.Millisecond
 			if deltaTime <= 0 {
 				msg := fmt.Sprintf("Segment availability time in the past: %d", availabilityTime)
-				c.report = append(c.report, msg)
+				c.addReport(msg)
 				c.log.Error(msg)
 			}
 			// A timer that is not in the future fires at once, so that the main loop catches up
